@@ -303,6 +303,8 @@ fn graphs(p: &Params) -> Program {
     let age = p.get("age", 4) as usize;
     // which `next` edges pop_edges hands to the cascade; the rest is released by AtomicRc::drop
     let pop = p.get("pop", 3) as u8;
+    // handles are released with Rc::finalize inside a critical section instead of dropped
+    let fin = p.get("fin", 0) != 0;
     let (n, edges, backs, handles) = shape(shape_i);
     let h = handles.len();
     let perm = nth_perm(h, case % fact(h));
@@ -347,7 +349,13 @@ fn graphs(p: &Params) -> Program {
                 let (r, wk) = hs[hi].take().unwrap();
                 if let Some(r) = r {
                     c.deref(&r);
-                    c.drop_rc(r);
+                    if fin {
+                        let g = c.pin();
+                        c.finalize(r, &g);
+                        c.unpin(g);
+                    } else {
+                        c.drop_rc(r);
+                    }
                 }
                 if let Some(wk) = wk {
                     if let Some(r) = c.upgrade(&wk) {
@@ -591,6 +599,10 @@ pub fn cell_alphabet() -> &'static Vec<CellOp> {
             }
         }
         v.push(CellOp::Adv);
+        // the weak variant with an expected value that differs from the content in its stamp
+        // only, and with a tagged one
+        v.push(CellOp::CasWeak(Ex::Held, V::Y));
+        v.push(CellOp::CasWeak(Ex::X1, V::Null));
         v
     })
 }
